@@ -79,6 +79,20 @@ Module Spec.
       match r with Ok out => convexnb tol n grid v p out | _ => false end
     else match r with Err _ => true | _ => false end.
 
+  (* exact value: the table and the point are exact rationals, so the implementation's value is compared with the
+     exact multilinear interpolant (the QN model, about which Props/C14.v proves every clause of the property);
+     this decides multilinear exactness, border agreement / continuity and agreement between the interpolators on
+     EVERY case, in particular on cells whose opposite corners coincide, where the convexity test is blind *)
+  Definition exactnb (tol : Q) (n : nat) (grid : list (list Q)) (v : @arr QN n) (p : list Q) (out : Q) : bool :=
+    match interpolaten (N:=QN) (@Build_interpn QN n grid v) p, block n grid v p with
+    | Ok q, Ok (vals, _) => Qle_bool (Qabs (out - q)) (tol * (1 + Qabs (lmin vals) + Qabs (lmax vals)))
+    | _, _ => false
+    end.
+  Definition check_exact (tol : Q) (n : nat) (grid : list (list Q)) (v : @arr QN n) (p : list Q) (r : res Q) : bool :=
+    if negb (List.length p =? n) then true
+    else if negb (insideb n grid p) then true
+    else match r with Ok out => exactnb tol n grid v p out | _ => false end.
+
   (* the multi-affine test function of the harness:  c + prod_i (b_i + a_i x_i)  (ab = [(a_1, b_1); ...]) *)
   Fixpoint prodlin (ab : list (Q * Q)) (p : list Q) : Q :=
     match ab, p with
@@ -118,6 +132,12 @@ Module Spec.
     match xs, last_opt xs, ys, last_opt ys, r with
     | x0 :: _, Some xl, y0 :: _, Some yl, Ok out =>
         convexnb tol 2 [xs; ys] tab [qclamp x0 xl sv; qclamp y0 yl gv] out
+    | _, _, _, _, _ => false
+    end.
+  Definition check_sg_exact (tol : Q) (xs ys : list Q) (tab : list (list Q)) (sv gv : Q) (r : res Q) : bool :=
+    match xs, last_opt xs, ys, last_opt ys, r with
+    | x0 :: _, Some xl, y0 :: _, Some yl, Ok out =>
+        exactnb tol 2 [xs; ys] tab [qclamp x0 xl sv; qclamp y0 yl gv] out
     | _, _, _, _, _ => false
     end.
 End Spec.
@@ -181,6 +201,8 @@ Definition spec_generic (n : nat) (grid : list (list float)) (v : @arr FN n) (pt
         Spec.check_interpolate tolQ n gq vq (map F2Q (fst pr)) (resQ (fst (snd pr))) in
     let agree (pr : (res float * res float) * (res float * res float)) :=
         Spec.closeb tolQ (resQ (fst (fst pr))) (resQ (fst (snd pr))) in
+    let chkx (pr : list float * (res float * res float)) :=
+        Spec.check_exact tolQ n gq vq (map F2Q (fst pr)) (resQ (fst (snd pr))) in
     let chkm (pr : list float * (res float * res float)) :=
         match ml with
         | None => true
@@ -194,6 +216,12 @@ Definition spec_generic (n : nat) (grid : list (list float)) (v : @arr FN n) (pt
     match first_bad chk1 (combine pts sp) 0 with
     | Some i => "REJECT specialised query " ++ show_nat i
     | None =>
+    match first_bad chkx (combine pts nd) 0 with
+    | Some i => "REJECT nd differs from the exact multilinear interpolant at query " ++ show_nat i
+    | None =>
+    match first_bad chkx (combine pts sp) 0 with
+    | Some i => "REJECT specialised differs from the exact multilinear interpolant at query " ++ show_nat i
+    | None =>
     match first_bad chkm (combine pts nd) 0 with
     | Some i => "REJECT nd not exact on a multilinear table at query " ++ show_nat i
     | None =>
@@ -203,7 +231,7 @@ Definition spec_generic (n : nat) (grid : list (list float)) (v : @arr FN n) (pt
     match first_bad agree (combine sp nd) 0 with
     | Some i => "REJECT nd differs from specialised at query " ++ show_nat i
     | None => (match sp with [] => "-" | _ => show_pts sp end) ++ " | " ++ show_pts nd
-    end end end end end.
+    end end end end end end end.
 Definition line_sg id n grid v pts ml sp nd := line "S" id (spec_generic n grid v pts ml sp nd).
 
 (* ---------- speed / grade stream ---------- *)
@@ -249,11 +277,16 @@ Definition spec_sg (s_lo s_hi : float) (s_bins : nat) (g_lo g_hi : float) (g_bin
     else if negb (Spec.check_axis tolQ (F2Q s_lo) (F2Q s_hi) s_bins xq) then "REJECT speed axis"
     else if negb (Spec.check_axis tolQ (F2Q g_lo) (F2Q g_hi) g_bins yq) then "REJECT grade axis"
     else
+    let chkx (pr : (float * float) * res float) :=
+        Spec.check_sg_exact tolQ xq yq tq (F2Q (fst (fst pr))) (F2Q (snd (fst pr))) (resQ (snd pr)) in
     match first_bad chk (combine cq outs) 0 with
     | Some i => "REJECT query " ++ show_nat i
+    | None =>
+    match first_bad chkx (combine cq outs) 0 with
+    | Some i => "REJECT differs from the exact bilinear interpolant at query " ++ show_nat i
     | None => "x=" ++ show_list show_float xs ++ " y=" ++ show_list show_float ys ++ " "
               ++ join ";" (map show_rf outs)
-    end.
+    end end.
 Definition line_sgs id s_lo s_hi s_bins g_lo g_hi g_bins xs ys tab cq outs :=
   line "S" id (spec_sg s_lo s_hi s_bins g_lo g_hi g_bins xs ys tab cq outs).
 
